@@ -31,6 +31,28 @@ AMoveSubtree == mode = "moves" /\ ~panic /\ \E a \in MoveSubtreeArgs(nodes) : Ap
 AComputeRanks == mode = "moves" /\ ~panic /\ ranks' = ComputeRanks(gr, nodes, ranks) /\ UNCHANGED <<gr, nodes, panic, idle>>
 Next == ASwapLeaves \/ ALocalSwap \/ AMoveSubtree \/ AComputeRanks
 
+\* ---- direct calls with caller-chosen arguments (audit #16; config MC_RankTree_d): swap_subtrees for ANY two disjoint
+\* subtrees and move_subtree for any path of at least four nodes, with the cache protocol the harness follows (the
+\* library's own: clear the edges of path(c1, c2) resp. everything / the path edges and the edge a1-ao), and sort_nhds
+SwapDirectArgs(ns) == {a \in RTIdx(ns) \X RTIdx(ns) : a[1] # a[2] /\ Len(Path(ns, a[1], a[2])) >= 3}
+ASwapDirect == mode = "moves" /\ ~panic /\ \E a \in SwapDirectArgs(nodes) :
+                 LET pt == Path(nodes, a[1], a[2]) IN
+                 /\ SwapArgsValid(nodes, pt[2], a[1], pt[Len(pt) - 1], a[2])
+                 /\ Apply(SwapDirect(nodes, ranks, pt[2], a[1], pt[Len(pt) - 1], a[2]))
+AMoveDirect == mode = "moves" /\ ~panic /\ \E a \in MoveSubtreeArgs(nodes) : \E sel \in BOOLEAN :
+                 LET pt == Path(nodes, a[1], a[2]) IN
+                 /\ MoveArgsValid(nodes, pt)
+                 /\ Apply(MoveDirect(nodes, ranks, pt, sel))
+ASortNhds == mode = "moves" /\ ~panic /\ nodes' = SortNhds(nodes) /\ SortKeepsTree(nodes, nodes') /\ UNCHANGED <<gr, ranks, panic, idle>>
+NextD == AComputeRanks \/ ASwapDirect \/ AMoveDirect \/ ASortNhds
+\* the queries agree with their definitions in every reachable state (Path / Partition / Edges are what the
+\* trace specification judges path() / partition() / edges() against)
+InvQueries == panic \/ (/\ \A a, b \in RTIdx(nodes) : IsTreePath(nodes, Path(nodes, a, b), a, b)
+                        /\ \A e \in Edges(nodes) : Partition(nodes, e) \cup Partition(nodes, <<e[2], e[1]>>) = RTVerts(gr)
+                                                    /\ Partition(nodes, e) \cap Partition(nodes, <<e[2], e[1]>>) = {}
+                                                    /\ Partition(nodes, e) # {} /\ Partition(nodes, <<e[2], e[1]>>) # {}
+                        /\ NumEdges(nodes) = Cardinality(Edges(nodes)))
+
 InvNoPanic == ~panic
 InvValidTree == panic \/ ValidTree(gr, nodes)
 InvCacheCoherent == panic \/ CacheCoherent(gr, nodes, ranks)
